@@ -359,8 +359,9 @@ def compute_dynamics_with_field(
 
     for step in range(num_steps+1):
 
-        # -- calculate time reached --
+        # -- calculate time reached (and the time of the previous step) --
         t = start_time + step * dt
+        t_previous = start_time + (step - 1) * dt
 
         # -- get pre & post measurement control list --
         controls_tuple_list = [prepare_controls(step, control)
@@ -393,7 +394,7 @@ def compute_dynamics_with_field(
         if step == 0:
             field = initial_field
         else:
-            field = compute_field(t - dt, dt, previous_state_list, field,
+            field = compute_field(t_previous, dt, previous_state_list, field,
                                   state_list)
         previous_state_list = state_list
         if record_all:
@@ -459,7 +460,7 @@ def compute_dynamics_with_field(
 
     system_states_list.append(final_state_list)
 
-    final_field = compute_field(t - dt, dt, previous_state_list, field,
+    final_field = compute_field(t_previous, dt, previous_state_list, field,
                                 final_state_list)
     field_list.append(final_field)
 
